@@ -215,7 +215,7 @@ impl<'r> G<'r> {
                         .clone()
                         .into_iter()
                         .map(|g| {
-                            let len = if !self.core && self.rng.chance(1, 8) { 0 } else if !self.core && self.rng.chance(1, 10) { self.rng.urange(4, 8) } else { self.rng.urange(1, 3) };
+                            let len = if !self.core && self.rng.chance(1, 8) { 0 } else if !self.core && self.rng.chance(1, 30) { self.rng.urange(4, 6) } else { self.rng.urange(1, 3) };
                             (0..len).map(|_| self.out_glyph(g, sigpres)).collect()
                         })
                         .collect();
